@@ -165,6 +165,16 @@ fn soups(c: &mut Ctx) {
     }
 }
 
+/// canonical reply of the real loader for the `load` operation
+pub fn load_reply(bytes: &[u8]) -> String {
+    match guard(|| Document::load_mem(bytes)) {
+        Ok(Ok(d)) => format!("ok {} {} {} {} {} {}", d.max_id, d.xref_start, hex_tok(d.version.as_bytes()), hex_tok(&d.binary_mark),
+            show_obj(&Object::Dictionary(d.trailer.clone())), show_objects(d.objects.iter())),
+        Ok(Err(_)) => "err".into(),
+        Err(_) => "panic".into(),
+    }
+}
+
 pub fn doc_request(kind: &str, doc: &Document) -> String {
     format!("save {} {} {} {} {} {}", kind, doc.max_id, hex_tok(doc.version.as_bytes()), hex_tok(&doc.binary_mark),
         show_obj(&Object::Dictionary(doc.trailer.clone())), show_objects(doc.objects.iter()))
@@ -211,6 +221,7 @@ fn documents(c: &mut Ctx) {
             match guard(|| cur.save_to(&mut buf)) {
                 Ok(Ok(())) => {
                     c.corr(req, format!("ok {} {} {}", hex_tok(&buf), cur.max_id, show_obj(&Object::Dictionary(cur.trailer.clone()))));
+                    c.corr(format!("load {}", hex_tok(&buf)), load_reply(&buf));
                     match guard(|| Document::load_mem(&buf)) {
                         Ok(Ok(back)) => {
                             if let Some(diff) = compare_docs(&before, &back, stream) {
